@@ -603,6 +603,13 @@ def e2e_case(ck: Check, camp, names: list[str], cfg: Cfg, model: str, required: 
             pass
     # members: list of (python name, wire key)
     pnames = [p for p, _ in members]
+    if base["trigger"] == "none" and model == "pydantic_v2.BaseModel":
+        # classification: was a member renamed again after get_valid_field_name_and_alias decided the alias
+        # (Parser.__change_field_name, pydantic v2 only)?
+        st1 = decode_fold(real_fold(names, dataclasses.replace(cfg, cap=False)))
+        if isinstance(st1, list) and sorted(set(f for f, _ in st1)) != sorted(set(pnames)):
+            base["trigger"] = "post_rename"
+            camp.hit("trigger:post_rename")
     if len(members) != len(names):
         ck.fail({**base, "mechanism": "member_count"}, inp, f"{len(names)} properties but the class has {len(members)} members: {pnames!r}")
         if model != "msgspec.Struct":
@@ -621,11 +628,6 @@ def e2e_case(ck: Check, camp, names: list[str], cfg: Cfg, model: str, required: 
     keeps_wire = model != "dataclasses.dataclass" and not cfg.noalias
     if keeps_wire:
         wire = sorted(w for _, w in members)
-        if wire != sorted(names) and base["trigger"] == "none" and model != "typing.TypedDict":
-            # classification: was a member renamed again after get_valid_field_name_and_alias decided the alias?
-            st1 = decode_fold(real_fold(names, dataclasses.replace(cfg, cap=False)))
-            if isinstance(st1, list) and sorted(f for f, _ in st1) != sorted(pnames):
-                base["trigger"] = "post_rename"
         if wire != sorted(names):
             ck.fail({**base, "mechanism": "wire_key"}, inp, f"wire keys {wire!r} differ from the property names {sorted(names)!r}")
         elif model.startswith("pydantic") and nested is None:
